@@ -264,9 +264,9 @@ def scripted():
 def generate(rng, tier):
     big = tier == 'thorough'
     cases = scripted()
-    for _ in range(500 if not big else 50000):
+    for _ in range(500 if not big else 4000):
         cases.append(gen_history(rng))
-    for _ in range(60 if not big else 3000):
+    for _ in range(60 if not big else 200):
         cases.append(gen_history(rng, malformed=True))
     return cases
 
